@@ -110,6 +110,10 @@ def build(prop, tier="quick"):
     t.invariant_class = "P"  # the invariant is the property clause itself (per position k), not a helper lemma
     kb.targets.append(t)
     kb.static_facts.append(downcast_fact())
+    if tier == "thorough":
+        import engine_probe
+        rc, cases, err = engine_probe.run("c06")
+        kb.static_facts.append(("native battery (thorough tier): probe_engine.cpp c06 scenarios on the real engine", rc == 0 and not cases, (err.strip() + " " + str(cases[:3]))[:400]))
     kb.assumptions += [
         "verif_do_call stands for the virtual do_call (entering the function body); its precondition is the arity clause of the property",
         "Type_Info comparisons enter this kernel through their contracts proved in kernel K6 (operator== <=> same type_info, bare_equal <=> same bare type_info)",
